@@ -339,8 +339,9 @@ example : machine (tdsQueries (K := Rat) id id (1/2) (1/10)) (fun t => 2 * t + 1
 /-! ### (4)  binary64: what is left once every operation rounds -/
 
 /-- Every extracted *time* is either a time variable handed on unchanged or of the shape
-    `time variable + (expression without time variables)`; every extracted *invariant* contains
-    times only as differences of two times. -/
+    `time variable + (expression in which times occur at most as differences of two times)` —
+    e.g. `start + k·dt`, `t + dt/4`, numpy's `linspace(start, end, n)[k] = start + k·((end − start)/(n−1))`;
+    every extracted *invariant* contains times only as differences of two times. -/
 theorem site_shapes : sites.all (fun s =>
     match s.role with
     | .time => s.tpi || (match s.expr with | .var _ => true | _ => false)
@@ -348,7 +349,7 @@ theorem site_shapes : sites.all (fun s =>
 
 /-- binary64 residue of the times and labels (partial: one site; a chain `t = start + k·dt`,
     then `t + dt/4` adds the two bounds).  For every site of shape `x + b` with `x` a time
-    variable and `b` free of time variables (by `site_shapes` every extracted time that is not
+    variable and `b` containing times at most as differences (by `site_shapes` every extracted time that is not
     a bare variable is of this shape), every binary64 environment and every exact shift τ of
     its time variables: the shifted value minus τ differs from the unshifted value by at most
     one rounding error on each side, `2⁻⁵³·(|x+τ+B| + |x+B|)` with `B` the binary64 value of
